@@ -19,7 +19,9 @@ Theorem js_vm_restored : forall r ord1 ord2 s,
 Proof. exact run_on_restores. Qed.
 
 (* For ALL call sequences, pool choices and pool drops: call k yields what it yields on a runtime
-   nobody has used; the invariant (every pooled runtime equals a new one) is kept. *)
+   nobody has used; the invariant (every pooled runtime equals a new one) is kept.
+   Scripts are of type [script] = functions of the visible globals: scripts that create global
+   bindings are outside by type (see js_global_writers_refuted below for why they must be). *)
 Theorem js_isolation : forall r, rt_wf r -> forall es pool,
   pool_ok r pool -> Forall vcall_wf (vcalls es) ->
   snd (vrun r pool es) = map (alone r) (vcalls es) /\ pool_ok r (fst (vrun r pool es)).
@@ -127,6 +129,24 @@ Proof. exact call_spec_is_uncached. Qed.
 Theorem node_arg_wins : forall (a : gmap N jsval) (j : bytes),
   node_override a j !! NODE = Some (JStr j) /\ forall k, k <> NODE -> node_override a j !! k = a !! k.
 Proof. exact node_arg_wins. Qed.
+
+(* OUTSIDE the property, by the type [script]: scripts that create global bindings (`t = 0`,
+   `var n = ...`, function declarations - the documentation's own examples do).  execProgram
+   wipes the arg names only; with the generalised script type [gscript] (result + bindings
+   created) the isolation statement is FALSE: a later call with no args sees the earlier call's
+   binding on the pooled runtime.  All theorems above are about [script]; run_on_g coincides with
+   run_on on that class. *)
+Theorem js_global_writers_refuted :
+  exists r (s1 : gscript) (s2 : script),
+    rt_wf r /\
+    fst (run_on_g r (fresh_vm r) [] [] s1) <> fresh_vm r /\
+    snd (run_on r (fst (run_on_g r (fresh_vm r) [] [] s1)) [] [] s2)
+      <> snd (run_on r (fresh_vm r) [] [] s2).
+Proof. exact js_global_writers_refuted. Qed.
+
+Theorem run_on_g_pure_script : forall r m ord1 ord2 (s : script),
+  run_on_g r m ord1 ord2 (fun g => (s g, [])) = run_on r m ord1 ord2 s.
+Proof. exact run_on_g_pure_script. Qed.
 
 (* ---- non-vacuity -------------------------------------------------------------------------------- *)
 (* a runtime table meeting rt_wf; a history in which a call with args {20,21}, a call that
